@@ -111,7 +111,7 @@ func init() {
 				ops0 := store.ops
 				store.mu.Unlock()
 				err := m.call(pl, s)
-				e.evals++
+				e.evals.Add(1)
 				valid := refTopicValid(s)
 				pk, rest := conn.packets()
 				store.mu.Lock()
@@ -181,7 +181,7 @@ func init() {
 			if err := c.Unsubscribe(nil); !mqtt.IsDeny(err) {
 				e.violate("C09", "no-filters-not-denied", "Unsubscribe() returned %v", err)
 			}
-			e.evals += 2
+			e.evals.Add(2)
 			for n := 1; n <= 3; n++ {
 				for bad := -1; bad < n; bad++ {
 					fs := make([]string, n)
@@ -193,7 +193,7 @@ func init() {
 					}
 					conn.reset()
 					err := c.Subscribe(nil, fs...)
-					e.evals++
+					e.evals.Add(1)
 					pk, _ := conn.packets()
 					if bad >= 0 {
 						if !mqtt.IsDeny(err) || len(pk) != 0 {
@@ -242,7 +242,7 @@ func init() {
 						}
 						time.Sleep(time.Millisecond)
 					}
-					e.evals++
+					e.evals.Add(1)
 					if !bytes.Equal(got, bytes.Join(want, nil)) {
 						e.violate("C09", "ack-packet", "inbound QoS %d PUBLISH %#04x: the client wrote %x, want %x", qos, id, got, bytes.Join(want, nil))
 					}
@@ -257,7 +257,7 @@ func init() {
 			if len(pk) != 1 || pk[0].Type != tPINGREQ {
 				e.violate("C09", "ping-packet", "Ping emitted %v", pk)
 			}
-			e.evals += 3
+			e.evals.Add(3)
 		}
 	}
 
@@ -307,7 +307,7 @@ func init() {
 						}
 					}
 				}
-				e.evals++
+				e.evals.Add(1)
 				e.distinct[fmt.Sprintf("rl=%d/q%d", rl, qos)] = true
 				if rl > 268435455 {
 					if !mqtt.IsDeny(err) {
@@ -360,7 +360,7 @@ func init() {
 									cfg := mqtt.Config{Dialer: dial, UserName: user, Password: pw, KeepAlive: ka, CleanSession: flags&1 != 0}
 									cfg.Will.Topic, cfg.Will.Message = wt, wm
 									cfg.Will.Retain, cfg.Will.AtLeastOnce, cfg.Will.ExactlyOnce = flags&2 != 0, flags&4 != 0, flags&8 != 0
-									e.evals++
+									e.evals.Add(1)
 									verr := mqtt.VerifConfigValid(&cfg)
 									valid := refStringValid(user) && len(pw) <= 65535 && len(wm) <= 65535 &&
 										(wm != nil && refTopicValid(wt) || wm == nil && refStringValid(wt))
@@ -394,7 +394,7 @@ func init() {
 									if !ok {
 										e.violate("C09", "connect-fields", "CONNECT does not decode to the Config: user %d/%d password %d/%d will %d flags %#x -> %+v", len(user), len(cf.User), len(pw), len(cf.Password), len(wm), flags, *cf)
 									}
-									if e.evals < 4 {
+									if e.evals.Load() < 4 {
 										e.sample("Config flags=%#x user=%q -> %d-byte CONNECT", flags, user, len(raw))
 									}
 								}
@@ -411,7 +411,7 @@ func init() {
 				if _, err := mqtt.VolatileSession(id, &cfg); err == nil {
 					e.violate("C09", "client-id-accepted", "VolatileSession accepted the client identifier %q…", id[:2])
 				}
-				e.evals++
+				e.evals.Add(1)
 			}
 		}
 	}
